@@ -111,6 +111,22 @@ func cmdCheck(args []string) int {
 		fmt.Fprintln(os.Stderr, "bad prop spec:", err)
 		return 2
 	}
+	// additional units: props/<id>.d/*.json (each a JSON list of units)
+	extra, _ := filepath.Glob(filepath.Join(*root, "props", *prop+".d", "*.json"))
+	sort.Strings(extra)
+	for _, f := range extra {
+		data, err := os.ReadFile(f)
+		if err != nil {
+			fmt.Fprintln(os.Stderr, err)
+			return 2
+		}
+		var us []PropUnit
+		if err := json.Unmarshal(data, &us); err != nil {
+			fmt.Fprintf(os.Stderr, "bad unit file %s: %v\n", f, err)
+			return 2
+		}
+		spec.Units = append(spec.Units, us...)
+	}
 	kfs, err := loadKnownFindings(filepath.Join(*root, "known_findings.jsonl"))
 	if err != nil {
 		fmt.Fprintln(os.Stderr, err)
